@@ -74,7 +74,7 @@ func runC07(c *Check, a *Analysis) {
 		}
 		// writer: constant byte stores into the buffer, attributed to the guarding field
 		var wt []pbTriple
-		eachInstr(w, func(in ssa.Instruction) {
+		eachInstrCtx(w, func(in, at ssa.Instruction, res func(ssa.Value) ssa.Value) {
 			s, ok := in.(*ssa.Store)
 			if !ok {
 				return
@@ -82,12 +82,13 @@ func runC07(c *Check, a *Analysis) {
 			if _, isIdx := s.Addr.(*ssa.IndexAddr); !isIdx {
 				return
 			}
-			k, ok := constInt(s.Val)
+			// the tag may be a parameter of a field-writing helper: resolved per call site
+			k, ok := constInt(res(s.Val))
 			if !ok {
 				return
 			}
 			f := ""
-			for fk, fv := range p.factsAt(in) {
+			for fk, fv := range p.factsAt(at) {
 				if fv {
 					continue // field present means "== 0" / "len0" is false
 				}
